@@ -557,6 +557,23 @@ var streamForms = []form{
 	{prog: "range(infinite) | [range(3)] | length"},
 	{prog: "range(infinite) | [., 1] | .[0] += 1 | .[0]"},
 	{prog: "range(infinite) | {a: .} | .a |= . + 1 | .a"},
+	// loops in path mode, stream (de)construction built on foreach / reduce / recursion
+	{prog: "path(repeat(.))"},
+	{prog: "path(repeat(.a))"},
+	{prog: "path(while(true; .))"},
+	{prog: "path(recurse(.; true))"},
+	{prog: "path(limit(1000000000; repeat(.a)))"},
+	{prog: "path(first(repeat(.a)), repeat(.b))"},
+	{prog: "{a: 0} | repeat(.a |= . + 1) | .a"},
+	{prog: "{a: 0} | recurse(.a += 1) | .a"},
+	{prog: "fromstream(inputs | [[], .])"},
+	{prog: "fromstream(range(infinite) | ([[0], .], [[0]]))"},
+	{prog: "1 | truncate_stream(range(infinite) | [[0, .], .])"},
+	{prog: "tostream", input: "flat"},
+	{prog: "limit(1000000000; tostream) | .[0]", input: "flat"},
+	{prog: "range(infinite) | [.] | . as [$a] ?// $a | $a"},
+	{prog: "range(infinite) | \"\\(.)\" | tonumber"},
+	{prog: "range(infinite) | {a: .} | .[]"},
 	// inputs and native generators
 	{prog: "inputs"},
 	{prog: "inputs | . + 1"},
@@ -642,6 +659,11 @@ var turnForms = []form{
 	{prog: "def f: if . < %M% then . + 1 %T% | [.] | .[0] | f else . end; 0 | f", want: "M"},
 	{prog: "def f: if . < %M% then . + 1 %T% | reduce range(2) as $i (.; .) | f else . end; 0 | f", want: "M"},
 	{prog: "def f: . as [$a] ?// $a | if $a < %M% then $a + 1 %T% | f else $a end; 0 | f", want: "M"},
+	{prog: "reduce (range(%M%) %T%) as $i ({a: 0}; .a += 1) | .a", want: "M"},
+	{prog: "{a: 0} | until(.a >= %M%; .a |= . + 1 %T%) | .a", want: "M"},
+	{prog: "reduce (range(%M%) %T%) as $i (null; .a.b = $i) | .a.b", want: "M-1"},
+	{prog: "last(path(limit(%M%; repeat(.a %T%)))) | length", want: "1"},
+	{prog: "reduce (tostream %T%) as $e (0; . + 1) - 1", want: "M", input: "flat"},
 	// self-ticking sources (the scripted input iterator and the native generator hold %M% values)
 	{prog: "reduce inputs as $x (0; . + 1)", want: "M", mode: "self"},
 	{prog: "last(inputs)", want: "M-1", mode: "self"},
